@@ -158,7 +158,10 @@ def main(pid, tier, seed, replay):
         # model-side searches attached to broken Gen-dependent theorems
         for hook in cfg.get("on_proof_failure", []):
             if proofs["failed"]:
-                findings.extend(hook(pid, proofs, seed))
+                extra_f = hook(pid, proofs, seed)
+                if extra_f:
+                    # a concrete failing input was computed: it replaces the bare "theorem no longer accepted" report
+                    findings = [f for f in findings if f.kind != "proof"] + extra_f
         for suite in cfg.get("suites", []):
             cov, fs = run_suite(pid, suite, tier, seed, binary)
             coverage["suites"].append(cov)
